@@ -32,6 +32,9 @@ type Spec struct {
 	// ModelConfirmed: obligations whose counterexample cannot be replayed natively (e.g. it needs a
 	// particular worker order) are confirmed by concrete evaluation under the solver's model instead.
 	ModelConfirmed func(o *Outcome, ob *OblResult) bool
+	// ReplayOrModel: a counterexample that the native replay does not reproduce still counts when the obligation
+	// evaluates to false under the solver's model (checks whose native run cannot use the model's data)
+	ReplayOrModel bool
 	// NoReplayKinds: obligation kinds that cannot be replayed natively (reported as ENCODING-MISMATCH if violated without replay)
 	Program *symgo.Program
 }
@@ -201,6 +204,19 @@ func Finish(sp *Spec, outs []Outcome, t0 time.Time, loadS float64) int {
 				res, err := RunReplay(path)
 				if err != nil {
 					machinery = append(machinery, fmt.Sprintf("REPLAY-FAILURE %s: %v", key, err))
+					continue
+				}
+				if !res.Confirms(ob.Kind, ob.Tag) && sp.ReplayOrModel && ob.Confirmed {
+					// the native run uses other data than the model (C14: the real gate tables instead of the model's
+					// gate entries): the counterexample stands on the exact evaluation of the obligation under the model
+					if f != nil {
+						knownConfirmed[f.ID] = true
+						nDis++
+						continue
+					}
+					tp := WriteTrace(sp.ID, replays, o.Config.Name, ob, nil)
+					violations = append(violations, fmt.Sprintf("VIOLATION property=%s replay=%s", sp.ID, tp))
+					fmt.Printf("  violated: %s (confirmed by exact evaluation under the model)\n", key)
 					continue
 				}
 				if !res.Confirms(ob.Kind, ob.Tag) {
